@@ -25,7 +25,10 @@ contract('pyx12.syntax.is_syntax_valid',
          type_cases=[('%s/%d' % (k, n), {'syn': ListLit(*([Const(k)] + [Int] * n))})
                      for k in KINDS for n in range(2, MAX_POS + 1)],
          returns=Tup(Bool, Opt(Str)),
-         requires=['valid_positions(syn[1:])'],
+         requires=['valid_positions(syn[1:])', 'seg_consistent(seg_data, syn[1:])'],
+         ghost={'probes': {'seg.len': 'len(seg_data)', 'vals': '[seg_data.get_value(refdes2(i)) for i in syn[1:]]',
+                           'seg.id': 'seg_data.get_seg_id()'}},
+         build='build_is_syntax_valid',
          ensures=['result[0] == (not syntax_violated(syn[0], seg_data, syn[1:]))',
                   '(result[1] is None) == result[0]'],
          raises={},
@@ -40,3 +43,32 @@ contract('pyx12.map_if.segment_if._split_syntax',
          raises={},
          serves=['C14'],
          note='precondition discharged on every <syntax> text of every shipped map (ground)')
+
+
+
+# ---- native replay helper ---------------------------------------------------------------
+def _lz(probes, name):
+    if name in probes:
+        return probes[name]
+    if name + '?a' in probes:
+        return _lz(probes, name + '?A') if probes[name + '?a'] else _lz(probes, name + '?B')
+    return None
+
+
+def build_is_syntax_valid(args):
+    import pyx12.segment
+    import pyx12.syntax
+    sub = args['syn']
+    n = sub['.__len__']
+    syn = [sub['[%d]' % k] for k in range(n)]
+    pr = args.get('__probes__', {})
+    seglen = max(0, min(int(pr.get('seg.len', 0)), 99))
+    vals = {}
+    for k, pos in enumerate(syn[1:]):
+        v = _lz(pr, 'vals[%d]' % k)
+        if v is not None and pos <= seglen:
+            vals[pos] = v
+    sid = _lz(pr, 'seg.id') or 'ZZ'
+    text = sid + ''.join('*' + vals.get(p, '') for p in range(1, seglen + 1))
+    seg = pyx12.segment.Segment(text, '~', '*', '\x1f')
+    return (lambda: pyx12.syntax.is_syntax_valid(seg, syn)), (), {'seg_data': seg, 'syn': syn}
